@@ -99,6 +99,26 @@ def build_grid(entry, variant="topology"):
     raise Machinery("unknown grid variant " + variant)
 
 
+_WARM = False
+
+
+def warm():
+    """Compile the (non-parallel) jitted coordinate helpers once in the parent, so that forked
+    workers inherit them instead of compiling each for themselves."""
+    global _WARM
+    if _WARM:
+        return
+    from . import catalog
+
+    for variant in ("topology", "ugrid_centres"):
+        g = build_grid(catalog.entries(name="cuboctahedron", rot=0, cut=0)[0], variant)
+        for p in ("node", "face", "edge"):
+            for c in ("lon", "lat", "x", "y", "z"):
+                getattr(g, "%s_%s" % (p, c)).values
+        g.get_ball_tree("face centers").query([0.0, 0.0], k=1)
+    _WARM = True
+
+
 def reported(g, kind, system):
     """Element positions as the grid reports them in `system`: unit xyz rows, plus the raw
     (lon, lat) degrees for the spherical system."""
@@ -277,7 +297,12 @@ def radius_for(pl, unit, c):
             return None
         return d[0] / 2.0
     if c == len(d) - 1:
-        return d[-1] + 0.05 * unit_scale(unit) if unit != "chord" else d[-1] + 0.05
+        if unit == "chord":
+            return d[-1] + 0.05
+        # beyond the last class, but never beyond 180 degrees: no great-circle distance exceeds it, and
+        # scikit-learn's haversine reduced distance sin^2(r/2) is not monotone there (not exercised)
+        r = d[-1] + 0.05 * unit_scale(unit)
+        return r if r < math.pi * unit_scale(unit) - 1e-6 else None
     return (d[c] + d[c + 1]) / 2.0
 
 
